@@ -102,6 +102,19 @@ def _call(r, sig, fn):
         return None, False
 
 
+def _f54_ti1d(spec, sig):
+    """string-grammar ambiguity (F54) reached through TI1DModel: a term that writes b^\dagger, the spin symbol '+', and a symbol
+    starting with 'b' in this order"""
+    if spec.get("kind") != "ti1d" or sig != "ti1d.construct.exc.AssertionError@op.py:__init__":
+        return False
+    for t in list(spec.get("local", [])) + list(spec.get("nonlocal", [])):
+        syms = [o[2] for o in t["ops"]]
+        for i in range(len(syms) - 2):
+            if syms[i] == "b^\\dagger" and syms[i + 1] == "+" and syms[i + 2].startswith("b"):
+                return True
+    return False
+
+
 class C16(Prop):
     id = "C16"
     rule = ("basis cases: Hypothesis draws a basis configuration (class, size 1-8, frequency, origin, grid range, endpoint, "
@@ -134,6 +147,7 @@ class C16(Prop):
 
     known_matchers = dict(MODEL_MATCHERS)
     known_matchers["F6"] = lambda spec, sig, msg: spec.get("kind") == "sho" and sig in F6_SIGS
+    known_matchers["F54"] = lambda spec, sig, msg: _f54_ti1d(spec, sig)
 
     def budget(self, tier):
         return dict(examples=1400, shards=16) if tier == "quick" else dict(examples=40000, shards=16)
